@@ -193,6 +193,10 @@ def c09(tier, seed):
     jobs += sched_jobs(tier, seed + 11, gen=dict(nmax=5, mc_max=2, seq_rate=0.4), stress=False, dfs=True, dfs_faults=True, scale=0.2)
     # executions started from inside node functions (also setup() inside a setup node): must terminate
     jobs += [dict(kind="imbricated", n_cases=(60 if tier == "quick" else 600), op_watchdog_s=20, **_seeds(seed + 80, k)) for k in range(2 if tier == "quick" else 4)]
+    # executors built and run with debug nodes switched on (selections that re-attach debug nodes with several parents): building the
+    # executor and running it terminate (a hang is judged by the watchdog's stack samples: client thread inside tawazi)
+    jobs += [dict(kind="dbg", only=["__termination_only__"], random_shapes=(40 if tier == "quick" else 400), nmax=8, op_watchdog_s=20, **_seeds(seed + 88, k))
+             for k in range(1 if tier == "quick" else 4)]
     # large DAGs (hundreds of nodes: chains, fans, grids, trees) terminate within the same step bound
     jobs += [dict(kind="scale", n_cases=(2 if tier == "quick" else 8), nmin=150, nmax=(400 if tier == "quick" else 900), **_seeds(seed + 85, k))
              for k in range(2 if tier == "quick" else 8)]
